@@ -372,6 +372,7 @@ LsCases == {[m |-> s[1], n |-> s[2], v |-> v] : s \in Shapes2, v \in {0, 1}}
 (*   at formula-chosen rows, which forces interchanges there while all      *)
 (*   multipliers stay dyadic.  A is non-singular (u_i # 0), so X0 is the    *)
 (*   unique solution of A*X = B := A*X0.  Values times den = 2.             *)
+(*   Variant 2: zero diagonal (see below), interchange at every step.       *)
 (****************************************************************************)
 TdInst(n, v) ==
   LET R == Nrhs
@@ -391,13 +392,18 @@ TdInst(n, v) ==
       RECURSIVE sAt(_)
       sAt(i) == IF i = 0 THEN 0 ELSE sAt(i - 1) + (IF v = 1 /\ n <= 12 /\ H(i, n, 79) % 2 = 0 THEN 2 ELSE 0)
       sc == Fn([i \in 0 .. n - 1 |-> Pow2(sAt(i))])
-      gdl == Fn([i \in 0 .. n - 2 |-> sc[i + 1] * ln[i] * u[i]])                           \* 2 * dl'_i
-      gd == Fn([i \in 0 .. n - 1 |-> sc[i] * (2 * u[i] + (IF i > 0 THEN ln[i - 1] * cc[i - 1] ELSE 0))])
-      gdu == Fn([i \in 0 .. n - 2 |-> sc[i] * 2 * cc[i]])
+      \* variant 2 ("zero diagonal"): d_i = 0 except the last one when n is odd, all off-diagonal
+      \* entries +-2^k: every elimination step meets an exactly zero pivot with a non-zero
+      \* subdiagonal, so partial pivoting MUST interchange.  det A = prod over pairs of
+      \* (-dl du) (times d_{n-1} for odd n) # 0, so X0 is again the unique solution.
+      gdl == Fn([i \in 0 .. n - 2 |-> IF v = 2 THEN 2 * u[i] ELSE sc[i + 1] * ln[i] * u[i]])                           \* 2 * dl'_i
+      gd == Fn([i \in 0 .. n - 1 |-> IF v = 2 THEN (IF i = n - 1 /\ n % 2 = 1 THEN 2 * u[i] ELSE 0)
+                                     ELSE sc[i] * (2 * u[i] + (IF i > 0 THEN ln[i - 1] * cc[i - 1] ELSE 0))])
+      gdu == Fn([i \in 0 .. n - 2 |-> IF v = 2 THEN 2 * u[i + 1] ELSE sc[i] * 2 * cc[i]])
       GB == Mat(n, R, LAMBDA i, j : gd[i] * X[i][j] + (IF i > 0 THEN gdl[i - 1] * X[i - 1][j] ELSE 0)
                                      + (IF i < n - 1 THEN gdu[i] * X[i + 1][j] ELSE 0))
-      npiv == Cardinality({i \in 0 .. n - 2 : Abs(gdl[i]) > Abs(sc[i] * 2 * u[i])})
-  IN [fam |-> "td", m |-> n, n |-> n, v |-> v, den |-> 2, ok |-> (v = 0), kbad |-> kb, R |-> R,
+      npiv == IF v = 2 THEN n \div 2 ELSE Cardinality({i \in 0 .. n - 2 : Abs(gdl[i]) > Abs(sc[i] * 2 * u[i])})
+  IN [fam |-> "td", m |-> n, n |-> n, v |-> v, den |-> 2, ok |-> (v # 1), kbad |-> kb, R |-> R,
       X |-> MatSeq(X, n, R),
       pd |-> VecSeq(pa, n), pe |-> VecSeq(pe, n - 1), D |-> VecSeq(D, n), l |-> VecSeq(l, n - 1), PB |-> MatSeq(PB, n, R),
       gdl |-> VecSeq(gdl, n - 1), gd |-> VecSeq(gd, n), gdu |-> VecSeq(gdu, n - 1), GB |-> MatSeq(GB, n, R),
@@ -405,6 +411,7 @@ TdInst(n, v) ==
       tol |-> 100 * Max(n, 1) * (1 + NormMax(X, n, R)) * 2]
 
 TdCases == {[n |-> n, v |-> v] : n \in (0 .. Small + 4) \cup {b % 1000 : b \in Big}, v \in {0, 1}}
+           \cup {[n |-> n, v |-> 2] : n \in 2 .. Small + 4}
 
 (****************************************************************************)
 (* Auxiliary integer operators: row interchanges (Dlaswp), column / row     *)
